@@ -237,18 +237,24 @@ class RouteMapRule(BaseModel):
     def __lt__(self, other):
         return self.addr_range.start < other.addr_range.start
 
-    def render(self, aw=None):
-        """Render the SystemVerilog routing rule."""
+    def render(self, aw=None, id_bits=None):
+        """Render the SystemVerilog routing rule.
+        An end at the very top of the address (or ID) space does not fit the field;
+        it is encoded as 0, which `addr_decode` interprets as the top of the space."""
         if aw is not None:
+            end_addr = self.addr_range.end % (1 << aw)
             return (
                 f"'{{idx: {self.dest.render()}, "
                 f"start_addr: {aw}'h{self.addr_range.start:0{cdiv(aw,4)}x}, "
-                f"end_addr: {aw}'h{self.addr_range.end:0{cdiv(aw,4)}x}}}"
+                f"end_addr: {aw}'h{end_addr:0{cdiv(aw,4)}x}}}"
             )
+        end_addr = self.addr_range.end
+        if id_bits is not None:
+            end_addr %= 1 << id_bits
         return (
             f"'{{idx: {self.dest.render()}, "
             f"start_addr: {self.addr_range.start}, "
-            f"end_addr: {self.addr_range.end}}}"
+            f"end_addr: {end_addr}}}"
         )
 
 
@@ -394,7 +400,7 @@ class RouteMap(BaseModel):
         # Validate the routing table
         self.model_validate(self)
 
-    def render(self, aw=None, idx_type="id_t"):
+    def render(self, aw=None, idx_type="id_t", id_bits=None):
         """Render the SystemVerilog routing table."""
         string = ""
         rules = self.rules.copy()
@@ -413,7 +419,7 @@ class RouteMap(BaseModel):
             )
             return string
         for i, rule in enumerate(rules):
-            rules_str += f"{rule.render(aw)}"
+            rules_str += f"{rule.render(aw, id_bits)}"
             rules_str += ',' if i != len(rules) - 1 else ' '
             if rule.desc is not None:
                 rules_str += f"// {rule.desc}\n"
